@@ -34,17 +34,14 @@ Definition aliases_spelled (r : crule) : bool :=
                                 (referenced r))
                      (snd am))
           (r_aliases r).
-(* D-D: referenced correlation rules are embedded finalised whatever the backend asked for *)
-Definition no_forced_final (K : kcfg) (r : crule) : bool :=
-  k_finalize K || forallb (fun rf => negb (ri_corr (rr_info rf))) (referenced r).
 (* D-E: every pipeline item applies to the correlation rule iff it applies to each referenced rule *)
 Definition uniform (P : list pitem) (r : crule) : bool :=
   let cats := flat_map (fun rf => ri_cats (rr_info rf)) (referenced r) in
   forallb (fun it => forallb (fun rf => Bool.eqb (matches it cats) (matches it (ri_cats (rr_info rf)))) (referenced r)) P.
 
-(* the three classes of inputs on which today's code departs from the specification *)
+(* the two classes of inputs on which today's code departs from the specification *)
 Definition sdom (K : kcfg) (P : list pitem) (r : crule) : bool :=
-  aliases_spelled r && no_forced_final K r && uniform P r.
+  aliases_spelled r && uniform P r.
 Definition dom (K : kcfg) (P : list pitem) (r : crule) : bool :=
   clean_rule r && forallb (fun it => clean_fmap (pi_f it)) P && sdom K P r.
 
@@ -354,15 +351,12 @@ Hypothesis Hdom : sdom K P r = true.
 Let refs := referenced r.
 Let cats := flat_map (fun rf => ri_cats (rr_info rf)) refs.
 
-Lemma sdom_parts : aliases_spelled r = true /\ no_forced_final K r = true /\ uniform P r = true.
-Proof.
-  unfold sdom in Hdom. apply andb_true_iff in Hdom. destruct Hdom as [H H3].
-  apply andb_true_iff in H. destruct H as [H1 H2]. auto.
-Qed.
+Lemma sdom_parts : aliases_spelled r = true /\ uniform P r = true.
+Proof. unfold sdom in Hdom. apply andb_true_iff in Hdom. exact Hdom. Qed.
 
 Lemma uniform_matches rf it : In rf refs -> In it P -> matches it (ri_cats (rr_info rf)) = matches it cats.
 Proof.
-  destruct sdom_parts as [_ [_ Hu]]. unfold uniform in Hu. intros Hrf Hit.
+  destruct sdom_parts as [_ Hu]. unfold uniform in Hu. intros Hrf Hit.
   rewrite forallb_forall in Hu. specialize (Hu it Hit). rewrite forallb_forall in Hu. specialize (Hu rf Hrf).
   apply eqb_prop in Hu. symmetry. exact Hu.
 Qed.
@@ -377,11 +371,7 @@ Proof.
 Qed.
 
 Lemma embed_own rf : In rf refs -> embed K (rr_info rf) = own_queries K (rr_info rf).
-Proof.
-  destruct sdom_parts as [_ [Hf _]]. unfold no_forced_final in Hf. intros Hrf.
-  unfold embed, own_queries. destruct (k_finalize K); [reflexivity|]. simpl in Hf.
-  rewrite forallb_forall in Hf. specialize (Hf rf Hrf). apply negb_true_iff in Hf. rewrite Hf. reflexivity.
-Qed.
+Proof. reflexivity. Qed.
 
 Lemma pairs_eq : exp_pairs K refs = ref_queries K refs.
 Proof.
@@ -751,7 +741,7 @@ Qed.
 Lemma embed_wfl rf q : In rf refs -> In q (embed K (rr_info rf)) -> wfl q = true.
 Proof.
   intros Hrf Hq. destruct (info_parts rf Hrf) as [H1 [H2 _]]. unfold embed in Hq.
-  destruct (k_finalize K || ri_corr (rr_info rf)); [rewrite forallb_forall in H2; auto | rewrite forallb_forall in H1; auto].
+  destruct (k_finalize K); [rewrite forallb_forall in H2; auto | rewrite forallb_forall in H1; auto].
 Qed.
 
 Lemma pairs_parts rq : In rq (ref_queries K refs) -> In (fst rq) refs /\ wfl (snd rq) = true.
@@ -1061,7 +1051,7 @@ Proof.
 Qed.
 
 (* ================================================================================================ *)
-(* refutations of the full statement: the four input classes outside sdom / xdom *)
+(* refutations of the full statement: the three input classes outside sdom / xdom *)
 Definition K0 : kcfg :=
   {| k_cfg := {| lvl := lvl_std; parenthesize := false; or_in := false; and_in := false; in_wild := false; not_eq := false |};
      k_single := false; k_norm := true; k_typing := false; k_ts := TsMap; k_nofield := false; k_fields := false;
@@ -1094,12 +1084,6 @@ Theorem alias_other_identifier_refuted :
   exists K P r t, clean_rule r = true /\ convc K P r = Ok t /\ expected K P r <> Ok (normalize (first_id r) t).
 Proof. exists K0, [], r_other_id. eexists. split; [reflexivity|]. split; [vm_compute; reflexivity|]. vm_compute. discriminate. Qed.
 
-(* D-D: a referenced correlation rule on a backend that did not ask for finalised sub-queries *)
-Definition r_nested : crule := rule0 [{| rr_ref := lit "corr_n"; rr_doc := 0; rr_info := info_n |}] [].
-Theorem nested_finalised_refuted :
-  exists K P r t, clean_rule r = true /\ convc K P r = Ok t /\ expected K P r <> Ok (normalize (first_id r) t).
-Proof. exists K0, [], r_nested. eexists. split; [reflexivity|]. split; [vm_compute; reflexivity|]. vm_compute. discriminate. Qed.
-
 (* D-E: a renaming conditioned on log source category c; rule_b has category d *)
 Definition P_cond : list pitem := [{| pi_f := FMap [(lit "u", [lit "mu"])]; pi_cat := Some (lit "c") |}].
 Theorem conditioned_renaming_refuted :
@@ -1119,8 +1103,17 @@ Theorem extended_reference_spelling_refuted :
                    lex_nodes (map (fun rf => ruleid (rr_info rf)) (referenced r)) xn = None.
 Proof. exists K0, r_hex. eexists. eexists. split; [vm_compute; reflexivity|]. split; vm_compute; reflexivity. Qed.
 
-(* the premises are inhabited by a non-trivial input *)
+(* a referenced correlation rule on a backend that did not ask for finalised sub-queries: inside the
+   domain since convert_correlation_rule stores the raw query for referring rules *)
+Definition r_nested : crule := rule0 [{| rr_ref := lit "corr_n"; rr_doc := 0; rr_info := info_n |}] [].
+
+(* the premises are inhabited by non-trivial inputs *)
 Lemma premises_inhabited :
   dom K0 P_good r_good = true /\ (exists t, convc K0 P_good r_good = Ok t) /\
-  dom K0 [] r_hex = true /\ cfg_ok (k_cfg K0) = true.
-Proof. split; [vm_compute; reflexivity|]. split; [eexists; vm_compute; reflexivity|]. split; vm_compute; reflexivity. Qed.
+  dom K0 [] r_hex = true /\ cfg_ok (k_cfg K0) = true /\
+  dom K0 [] r_nested = true /\ (exists t, convc K0 [] r_nested = Ok t).
+Proof.
+  split; [vm_compute; reflexivity|]. split; [eexists; vm_compute; reflexivity|].
+  split; [vm_compute; reflexivity|]. split; [vm_compute; reflexivity|].
+  split; [vm_compute; reflexivity|]. eexists; vm_compute; reflexivity.
+Qed.
